@@ -384,6 +384,14 @@ package bls
 //@   on-call (*TBLS).validateCommitments(t):
 //@     use distinctCard(tbls.parties)
 //@     use subsetCardEq(keys(tbls.publicKeysOfParties), elems(tbls.parties, len(tbls.parties)))
+//@   // the waits of the phases are woken by the context monitor: it watches THIS context and is started before the first wait
+//@   // (safety form of 'never blocks once the context expires'; whether the monitor goroutine then runs is scheduling)
+//@   ghost-var monitored bool
+//@   on-call (*TBLS).monitorContextTimeout(t1, cx1):
+//@     assert [this-context] cx1 == ctx
+//@     ghost monitored = true
+//@   on-call (*TBLS).shareDistribution(t2, cx2, sh):
+//@     assert [monitor-running] monitored
 //@   at return:
 //@     assert [timeout-is-error] done(ctx) ==> result.1 != nil
 //@     assert [checked] result.1 == nil ==> forall p uint16 :: p in tbls.publicKeysOfParties && p != tbls.Party ==> sha256(tbls.publicKeysOfParties[p]) == string(tbls.commitments[p])
